@@ -240,8 +240,7 @@ func Step(g Seg, v val.V) (val.V, State) {
 	panic("sel: kind " + g.Kind)
 }
 
-// Resolve applies the segments one after the other. Anything after a
-// no-value intermediate result is Unspecified (the statement is silent).
+// Resolve applies the segments one after the other.
 func Resolve(s Sel, v val.V) (val.V, State) {
 	cur := v
 	for i, g := range s {
@@ -250,10 +249,21 @@ func Resolve(s Sel, v val.V) (val.V, State) {
 		case Value:
 			cur = nv
 		case NoValue:
+			// What follows a miss. Identity does nothing. After an optional field that is simply not there in a map,
+			// the next segment is resolved on "no value": one that is not optional cannot succeed on nothing and
+			// fails - an error (every segment kind of the library does that). What an OPTIONAL segment makes of
+			// nothing, what happens behind it, and what follows a miss of another sort (a field of a non-map, an index
+			// out of range: the library ends the resolution there with "no value", whatever follows) the statement
+			// does not settle: Unspecified.
+			mapMiss := (g.Kind == "field" || g.Kind == "qfield") && cur.Kind() == "map"
 			for _, rest := range s[i+1:] {
-				if rest.Kind != "id" {
-					return val.V{}, Unspecified
+				if rest.Kind == "id" {
+					continue
 				}
+				if mapMiss && !rest.Opt {
+					return val.V{}, Error
+				}
+				return val.V{}, Unspecified
 			}
 			return val.V{}, NoValue
 		default:
